@@ -75,6 +75,8 @@ pub struct WatPkg {
     pub version: Option<String>,
     pub imports: Vec<(String, Shape)>,
     pub exports: Vec<(String, Shape)>,
+    /// distinguishes the bytes of packages with the same world (0: the plain text)
+    pub salt: u32,
 }
 
 impl WatPkg {
@@ -83,9 +85,16 @@ impl WatPkg {
         for (n, sh) in &self.imports {
             s.push_str(&format!("  (import \"{}\" {})\n", n, sh.ty_text()));
         }
-        s.push_str(
-            "  (core module $m (func (export \"f0\")) (func (export \"f1\") (param i32) (result i32) local.get 0))\n",
-        );
+        if self.salt == 0 {
+            s.push_str(
+                "  (core module $m (func (export \"f0\")) (func (export \"f1\") (param i32) (result i32) local.get 0))\n",
+            );
+        } else {
+            s.push_str(&format!(
+                "  (core module $m (func (export \"f0\") i32.const {} drop) (func (export \"f1\") (param i32) (result i32) local.get 0))\n",
+                self.salt
+            ));
+        }
         s.push_str("  (core instance $ci (instantiate $m))\n");
         s.push_str("  (func $lf0 (canon lift (core func $ci \"f0\")))\n");
         s.push_str(
@@ -140,6 +149,21 @@ impl Shape {
             }
             _ => false,
         }
+    }
+}
+
+/// import and export names of the world of a library package
+pub fn lib_names(p: &LibPkg) -> (Vec<String>, Vec<String>) {
+    if let Some((i, e)) = &p.shapes {
+        return (i.iter().map(|(n, _)| n.clone()).collect(), e.iter().map(|(n, _)| n.clone()).collect());
+    }
+    let mut types = Types::default();
+    match Package::from_bytes(&p.name, None, p.bytes.clone(), &mut types) {
+        Ok(pkg) => {
+            let w = &types[pkg.ty()];
+            (w.imports.keys().cloned().collect(), w.exports.keys().cloned().collect())
+        }
+        Err(_) => (Vec::new(), Vec::new()),
     }
 }
 
@@ -247,6 +271,10 @@ pub struct GraphDump {
     pub shared_sources: usize,
     pub multi_inst_pkgs: usize,
     pub alias_of_alias: usize,
+    /// package names instantiated at more than one version
+    pub multi_version_names: usize,
+    /// (instantiation, source instance) pairs with more than one argument aliased from that instance
+    pub multi_arg_pairs: usize,
 }
 
 /// Dump the graph through its public API (+ the adjacency-order hook).
@@ -301,7 +329,11 @@ pub fn dump_graph(g: &CompositionGraph, pkg_ids: &[PackageId]) -> GraphDump {
         shared_sources: 0,
         multi_inst_pkgs: 0,
         alias_of_alias: 0,
+        multi_version_names: 0,
+        multi_arg_pairs: 0,
     };
+    let mut versions_per_name: BTreeMap<String, Vec<usize>> = BTreeMap::new();
+    let mut args_per_pair: BTreeMap<(usize, usize), usize> = BTreeMap::new();
     let mut inst_per_pkg: BTreeMap<usize, usize> = BTreeMap::new();
     let mut uses_of_source: BTreeMap<usize, usize> = BTreeMap::new();
     for (pos, id) in ids.iter().enumerate() {
@@ -319,6 +351,10 @@ pub fn dump_graph(g: &CompositionGraph, pkg_ids: &[PackageId]) -> GraphDump {
                 d.n_inst += 1;
                 let slot = CompositionGraph::verif_package_slot(node.package().unwrap());
                 *inst_per_pkg.entry(slot).or_insert(0) += 1;
+                let v = versions_per_name.entry(g[node.package().unwrap()].name().to_string()).or_default();
+                if !v.contains(&slot) {
+                    v.push(slot);
+                }
                 let mut sat: Vec<usize> = sat.iter().copied().collect();
                 sat.sort();
                 t.s("inst").n(slot).n(sat.len());
@@ -386,6 +422,9 @@ pub fn dump_graph(g: &CompositionGraph, pkg_ids: &[PackageId]) -> GraphDump {
                     assert_eq!(s, src, "get_instantiation_arguments order differs from adjacency");
                     d.n_arg += 1;
                     *uses_of_source.entry(*src).or_insert(0) += 1;
+                    if let Some((root, _)) = g.get_alias_source(by_index[src]) {
+                        *args_per_pair.entry((idx, node_index(root))).or_insert(0) += 1;
+                    }
                     t.s("arg").n(*payload).s(n).n(*src);
                 }
                 _ => {
@@ -400,6 +439,8 @@ pub fn dump_graph(g: &CompositionGraph, pkg_ids: &[PackageId]) -> GraphDump {
         }
     }
     d.multi_inst_pkgs = inst_per_pkg.values().filter(|n| **n > 1).count();
+    d.multi_version_names = versions_per_name.values().filter(|v| v.len() > 1).count();
+    d.multi_arg_pairs = args_per_pair.values().filter(|n| **n > 1).count();
     d.shared_sources = uses_of_source.values().filter(|n| **n > 1).count();
     d.toks = t;
     d.bytes_class = bytes_class;
